@@ -243,6 +243,10 @@ Proof.
   - apply runs_wunit. apply (ENV np_remove_from_file); tauto.
 Qed.
 
+Theorem no_panic_all' w o : PanicFree w -> SizeOk w -> RNF w -> op_wf w o ->
+  (forall s, runF fmt o w <> Pan s) /\ runF fmt o w <> Fuel.
+Proof. intros PF SZ NF WF. destruct (no_panic_all w o PF SZ NF WF) as (r & w' & E). rewrite E. split; [intros s|]; discriminate. Qed.
+
 Theorem no_panic_H12 w o : H12 w -> SizeOk w -> op_wf w o -> runs (runF fmt o) w.
 Proof. intros I SZ WF. apply no_panic_all; auto using H12_PanicFree, H12_RefNoFloat. Qed.
 
@@ -280,6 +284,17 @@ Theorem H12_reachable l : forall w w', H12 w -> run_ops T tab_el tab_en check_fn
 Proof.
   induction l as [|o l IH]; intros w w' I H; cbn [run_ops] in H; [injection H as <-; exact I|].
   fold run in H. destruct (run o w) as [[x w1]| |] eqn:E; try discriminate H. exact (IH _ _ (H12_step _ _ _ _ I E) H).
+Qed.
+
+(* a history of the oracle alphabet is a history of Tree/Script.v's alphabet (with other arguments for the float calls):
+   whatever is proved about worlds reached by run_ops holds for worlds reached by run_opsF *)
+Lemma run_opsF_is_run_ops l : forall w w', run_opsF l w = Val w' ->
+  exists l', run_ops T tab_el tab_en check_fn LATEST root_attrs l' w = Val w'.
+Proof.
+  induction l as [|o l IH]; intros w w' H; cbn [run_opsF] in H; [exists []; exact H|].
+  destruct (runF fmt o w) as [[x w1]| |] eqn:E; try discriminate H.
+  destruct (runF_is_run _ _ _ _ E) as (o' & r' & E'). destruct (IH _ _ H) as (l' & H').
+  exists (o' :: l'). cbn [run_ops]. fold run. rewrite E'. exact H'.
 Qed.
 
 End Hist.
